@@ -385,6 +385,34 @@ def search(ctx):
                                                        "ring": [type(x).__name__ + (":%d" % x.key_selector if hasattr(x, "key_selector") else "")
                                                                 for x in ring]},
                                  "key ring without an ECC recipient for selector %d: %s" % (sel, repr(blk)[:120]))
+                    # a block object whose key_selector attribute is changed after construction is a block for the NEW
+                    # selector: selector byte and recipient both follow the attribute
+                    other = (sel + 1 + r.randrange(3)) % 4
+                    bobj = InitEccAuthBlock(other)
+                    bobj.key_selector = sel
+                    del seen[:]
+                    ctx.case(("selector-changed", other, sel))
+                    blk = run_impl(lambda: bobj.pack(C.gen_key(r), []))
+                    if blk[0] != "ok" or seen != [bytes.fromhex(PUBLISHED_KEYS[sel])] or blk[1][0] != sel:
+                        ctx.fail("default-recipient", {"sel": sel, "seen": [x.hex() for x in seen], "constructed_with": other},
+                                 "block constructed for selector %d, key_selector then set to %d: selector byte %s, ECDH peer %s" % (
+                                     other, sel, blk[1][0] if blk[0] == "ok" else blk,
+                                     "published key of %d" % sel if seen == [bytes.fromhex(PUBLISHED_KEYS[sel])] else "another key"))
+                    # a file READ with a decryptor and written again WITHOUT encryptors: the ECC block is re-wrapped for the
+                    # published key of its selector, not for whoever opened the file
+                    rp = plug.PrivateEccKeyProxy(SigningKey.from_secret_exponent(r.randrange(1, N_ORDER), NIST256p))
+                    f0 = Bec2File(B.build({}, []), [InitEccAuthBlock(sel)], C.gen_key(r))
+                    t0 = io.StringIO()
+                    f0.write_file(t0, [EccEncryptor(sel, rp.public_key)])
+                    g0 = run_impl(lambda: Bec2File.read_file(io.StringIO(t0.getvalue()), [EccDecryptor(sel, rp)], True))
+                    if g0[0] == "ok":
+                        del seen[:]
+                        ctx.case(("read-then-write-default", sel))
+                        w0 = run_impl(lambda: g0[1].to_binary([]))
+                        w1 = run_impl(lambda: g0[1].to_binary())
+                        if w0[0] != "ok" or w1[0] != "ok" or seen != [bytes.fromhex(PUBLISHED_KEYS[sel])] * 2:
+                            ctx.fail("default-recipient", {"sel": sel, "seen": [x.hex() for x in seen], "via": "read_file then to_binary without encryptors"},
+                                     "a file read with an EccDecryptor and written again without encryptors is not addressed to the published key")
                     # a file written that way carries that block
                     s = io.StringIO()
                     del seen[:]
